@@ -383,7 +383,12 @@ def run(ctx):
     res = ctx.res
     allops = ops()
     walkops = allops + ops(UNICODE_KEYS, extra=False) + [("update_map", [{"STRASSE": 1, "Straße": 2}]), ("update_kw", [{"ΜM": 1, "µm": 2}])] + \
-        [("update_kw", [kw]) for kw in PARAM_LIKE] + [("update_both", [{"a": 1}, kw]) for kw in PARAM_LIKE[:2]]
+        [("update_kw", [kw]) for kw in PARAM_LIKE] + [("update_both", [{"a": 1}, kw]) for kw in PARAM_LIKE[:2]] + \
+        [("setitem", ["LAYERS", [{"NAME": "x"}]]), ("setitem", ["classes", [{"Name": "c"}, 1]]), ("update_map", [{"Classes": [{"Name": "c"}], "a": 1}]),
+         ("update_kw", [{"layers": [{"NAME": "x"}]}]), ("update_pairs", [[["STYLES", [{"Size": 1}, {}]]]]),
+         ("update_ci", [[["Layers", [{"NAME": "x", "CLASSES": [{"Name": "y"}]}]]], {}]), ("setdefault", ["LAYERS", [{"NAME": "x"}]])]
+    # (values handed over for the object-list keys are stored as they are, plain dictionaries inside included: an ordinary dict does not
+    # convert what it is given)
     depth = 3 if ctx.quick else 4
     seen = set()
     for factory in (True, False):
